@@ -49,9 +49,18 @@ def set_beat(storage, trial_id, beat):
     with storage.engine.begin() as conn:
         conn.execute(sqlalchemy.text("DELETE FROM trial_heartbeats WHERE trial_id = :t"), {"t": trial_id})
         if beat != "none":
-            when = "-1 day" if beat == "stale" else "+1 hour"
-            conn.execute(sqlalchemy.text(f"INSERT INTO trial_heartbeats (trial_id, heartbeat) VALUES (:t, datetime('now', '{when}'))"),
+            conn.execute(sqlalchemy.text("INSERT INTO trial_heartbeats (trial_id, heartbeat) VALUES (:t, datetime('now', '-1 day'))"),
                          {"t": trial_id})
+    if beat == "fresh":
+        # an alive worker's NEXT heartbeat, through the real code (update path of record_heartbeat): the row written a day ago
+        # becomes fresh.  Heartbeat rows are created in an order unrelated to trial creation (and not for every trial).
+        try:
+            storage.record_heartbeat(trial_id)
+        except Exception as e:  # the class is the observation (no action of the spec lets a heartbeat fail)
+            return type(e).__name__ + ":" + str(e)[:80]
+        finally:
+            storage.remove_session()
+    return None
 
 
 def instrument(storage, w, log, num_of, starts=False):
@@ -149,7 +158,9 @@ def execute(seed, mode, workdir):
             t.report(float(rng.randint(0, 5)), 0)
             if state == "COMPLETE":
                 study0.tell(t, 1.0)
-            set_beat(admin, t._trial_id, beat)
+            err = set_beat(admin, t._trial_id, beat)
+            if err:
+                log({"e": "heartbeat_failed", "n": t.number, "err": err})
             num_of[t._trial_id] = t.number
             beats[t.number] = beat
             ft = describe(t.number)
@@ -172,7 +183,9 @@ def execute(seed, mode, workdir):
                 if rng.random() < 0.7:
                     tr = study0.ask()
                     beat = rng.choice(["stale", "stale", "fresh", "none"])
-                    set_beat(admin, tr._trial_id, beat)
+                    err = set_beat(admin, tr._trial_id, beat)
+                    if err:
+                        log({"e": "heartbeat_failed", "n": tr.number, "err": err})
                     num_of[tr._trial_id] = tr.number
                     f2 = describe(tr.number)
                     log({"e": "trial", "n": tr.number, "state": "RUNNING", "beat": beat,
